@@ -1220,6 +1220,11 @@ class Doors(Family):
 # ------------------------------------------------------------------------------------------ E11: depth and length
 
 DEPTHS = [1, 2, 3, 4, 5, 6, 8, 13, 21, 34]
+# PENDING-FINDING: at depth 55 and 89 the four nesting schemes (parentheses around a leaf / a sum, nested negated
+# parentheses, nested calls) make evaluator() raise a raw RecursionError (interpreter stack exhausted inside pyparsing;
+# the threshold is about 50 levels of '(' and about 35 levels of 'h('); through a grader it becomes the generic
+# "Could not check input" error.  Skipped until it is decided whether unbounded redundant nesting is in scope.
+DEPTHS_PENDING = [55, 89]
 
 
 def _fold_right_pow(base, exps):
